@@ -39,6 +39,9 @@ pub struct Ctx {
     pub cases_done: u64,
     pub stopped_early: bool,
     pub max_violations: usize,
+    /// signatures listed as known findings: counted, two examples kept, never stop the run
+    pub known: Vec<String>,
+    pub unknown_violations: usize,
 }
 
 impl Ctx {
@@ -83,6 +86,8 @@ impl Ctx {
             cases_done: 0,
             stopped_early: false,
             max_violations: 40,
+            known: Vec::new(),
+            unknown_violations: 0,
         }
     }
 
@@ -105,7 +110,7 @@ impl Ctx {
                 self.stopped_early = true;
                 break;
             }
-            if self.violations.len() >= self.max_violations {
+            if self.unknown_violations >= self.max_violations {
                 self.stopped_early = true;
                 break;
             }
@@ -151,7 +156,14 @@ impl Ctx {
 
     pub fn violation(&mut self, idx: u64, sig: &str, what: &str, detail: Value) {
         self.evaluations += 1;
-        if self.violations.len() < self.max_violations {
+        let is_known = self.known.iter().any(|k| k == sig);
+        let keep = if is_known {
+            self.violations.iter().filter(|v| v["signature"] == sig).count() < 2
+        } else {
+            self.unknown_violations += 1;
+            self.unknown_violations <= self.max_violations
+        };
+        if keep {
             self.violations.push(json!({
                 "property": self.prop,
                 "idx": idx,
